@@ -174,6 +174,25 @@ class InstallOverrider(_Proc):
 
 
 @register
+class InstallOverriderOverCustomHook(InstallOverrider):
+    """... also when the application (a crash reporter, cgitb, an IDE) installed its own sys.excepthook BEFORE the
+    library was imported: the overrider still takes the hook over (it delegates to the one it found), otherwise an
+    uncaught exception would go unrecorded and the exit hook would prove a crashed run."""
+    name = "pysnark.atexitmaybe:ExitOverrider.__init__#custom_excepthook"
+
+    def world_setup(self, w):
+        def app_hook(tp, ex, *a):
+            w.stdout.append(("<stderr>", ("app hook", tp.__name__)))
+        self._app_hook = app_hook
+        w.vsys.excepthook = app_hook
+
+    def post(self, c, ov):
+        d = InstallOverrider.post(self, c, ov)
+        d["F.delegates_to_the_hook_it_found"] = ov._excepthook is self._app_hook
+        return d
+
+
+@register
 class Final(_Proc):
     """runtime.final(): autoprove on -> backend.prove() exactly once; autoprove off -> nothing is
     produced and the hook does not fail."""
